@@ -9,6 +9,13 @@ package main
 // ticks, IdKeeper cleaning and restarts.  After every operation the harness writes what the
 // implementation did: the bundles handed to the mock CLAs (ID and payload parsed from the bytes),
 // the IdKeeper's counters and every store item (key, and ID + payload of the stored part file).
+//
+// Two submissions that coincide in (source, creation time) may differ in everything else: the
+// variant number of a submission (ikVariant) selects report-to endpoint, destination, lifetime,
+// control flags, extension blocks, payload length and CRC type.  Creation times cover the zero
+// time, the scenario's millisecond, times ahead of the node's clock (1 ms ... 1 year: a client
+// whose clock is ahead) and behind it (60 s ... 1 year); the "bnd" cases probe the cleaning
+// threshold at the millisecond (see ikBoundary).
 
 import (
 	"crypto/ed25519"
@@ -42,19 +49,50 @@ func ikSrcIdx(e bpv7.EndpointID) int {
 
 // time kinds of a submission
 const (
-	ikT0    = iota // the scenario's fixed millisecond
-	ikEpoch        // zero creation time (+ bundle age block)
-	ikT1           // a second fixed millisecond (T0 + 1)
-	ikKept         // T0 - 60 s: younger than the cleaning threshold (86.4 s)
-	ikOld          // T0 - 120 s: older than the cleaning threshold
-	ikHalfH        // T0 - 30 min: "younger than an hour" (the comment), older than the threshold (the code)
-	ikNow          // the clock at submission
+	ikT0      = iota // the scenario's fixed millisecond
+	ikEpoch          // zero creation time (+ bundle age block)
+	ikT1             // a second fixed millisecond (T0 + 1)
+	ikKept           // T0 - 60 s: younger than the cleaning threshold (86.4 s)
+	ikOld            // T0 - 120 s: older than the cleaning threshold
+	ikHalfH          // T0 - 30 min: "younger than an hour" (the comment), older than the threshold (the code)
+	ikNow            // the clock at submission
+	ikAhead1         // 1 ms ahead of the clock at its first use in the scenario (then the same value again)
+	ikAhead2s        // T0 + 2 s
+	ikAheadH         // T0 + 1 h
+	ikAheadD         // T0 + 1 day + 1 ms
+	ikAheadY         // T0 + 365 days
+	ikPastD          // T0 - 1 day
+	ikPastY          // T0 - 365 days
 )
+
+var ikAheadKinds = []int{ikAhead1, ikAhead2s, ikAheadH, ikAheadD, ikAheadY}
+
+const ikDay = 86400000
 
 type ikSpec struct {
 	path string // sb | ag | rp
 	src  int
 	tk   int
+	vr   int // variant of everything that is not (source, creation time); 0 = the plain bundle
+}
+
+// ---- variants -------------------------------------------------------------------------------
+// vr = rt + 5*(dest + 3*(life + 3*(flags + 2*(blocks + 4*(pay + 3*crc)))))
+var ikReportTos = []string{"", "dtn://n0/mon", "dtn://ops/rep", "dtn://n0/app2", "dtn:none"}
+var ikDests = []string{"dtn://dest/x", "dtn://dest/y", "dtn://other/in"}
+
+const ikVariants = 5 * 3 * 3 * 2 * 4 * 3 * 2
+
+func ikVariant(r *Rng) int {
+	switch r.Intn(4) {
+	case 0:
+		return 0
+	case 1: // only the report-to endpoint differs
+		return r.Intn(5)
+	case 2: // one other dimension
+		return []int{5, 10, 15, 30, 45, 90, 180, 270, 360, 720, 1080}[r.Intn(11)]
+	}
+	return r.Intn(ikVariants)
 }
 
 type ikOp struct {
@@ -104,10 +142,33 @@ type ikScen struct {
 	ref    map[string]int // referenced bundle ID (status reports) -> tid
 	fields []S
 	mark   int
+	ahead1 uint64
+}
+
+func (x *ikScen) time(tk int) uint64 {
+	if tk == ikAhead1 {
+		if x.ahead1 == 0 {
+			x.ahead1 = uint64(bpv7.DtnTimeNow()) + 1
+		}
+		return x.ahead1
+	}
+	return ikTime(x.t0, tk)
 }
 
 func ikTime(t0 uint64, tk int) uint64 {
 	switch tk {
+	case ikAhead2s:
+		return t0 + 2000
+	case ikAheadH:
+		return t0 + 3600000
+	case ikAheadD:
+		return t0 + ikDay + 1
+	case ikAheadY:
+		return t0 + 365*ikDay
+	case ikPastD:
+		return t0 - ikDay
+	case ikPastY:
+		return t0 - 365*ikDay
 	case ikT0:
 		return t0
 	case ikEpoch:
@@ -124,9 +185,43 @@ func ikTime(t0 uint64, tk int) uint64 {
 	return uint64(bpv7.DtnTimeNow())
 }
 
-func ikBundle(src int, ts uint64, tid int) bpv7.Bundle {
-	bl := bpv7.Builder().CRC(bpv7.CRC32).Source(ikSrcs[src]).Destination("dtn://dest/x").Lifetime(4 * time.Hour).
-		BundleCtrlFlags(bpv7.MustNotFragmented).PayloadBlock([]byte("T" + strconv.Itoa(tid)))
+func ikBundle(src int, ts uint64, tid int, vr int) bpv7.Bundle {
+	rt, v := vr%5, vr/5
+	dest, v := v%3, v/3
+	life, v := v%3, v/3
+	flags, v := v%2, v/2
+	blocks, v := v%4, v/4
+	pay, v := v%3, v/3
+	crc := v % 2
+	lifetime := 4 * time.Hour
+	if now := uint64(bpv7.DtnTimeNow()); ts != 0 && ts+3600000 < now {
+		// a creation time far in the past: the bundle must not be expired already
+		lifetime = time.Duration(now-ts)*time.Millisecond + 4*time.Hour
+	}
+	lifetime += time.Duration(life) * time.Hour
+	fl := bpv7.MustNotFragmented
+	if flags == 1 {
+		fl |= bpv7.RequestUserApplicationAck
+	}
+	payload := "T" + strconv.Itoa(tid)
+	if pay > 0 {
+		payload += " " + strings.Repeat("x", []int{0, 100, 3000}[pay])
+	}
+	ct := bpv7.CRC32
+	if crc == 1 {
+		ct = bpv7.CRC16
+	}
+	bl := bpv7.Builder().CRC(ct).Source(ikSrcs[src]).Destination(ikDests[dest]).Lifetime(lifetime).
+		BundleCtrlFlags(fl).PayloadBlock([]byte(payload))
+	if rt > 0 {
+		bl = bl.ReportTo(ikReportTos[rt])
+	}
+	if blocks&1 != 0 {
+		bl = bl.HopCountBlock(30)
+	}
+	if blocks&2 != 0 {
+		bl = bl.Canonical(bpv7.NewGenericExtensionBlock([]byte{7, 7, byte(tid)}, 222))
+	}
 	if ts == 0 {
 		bl = bl.CreationTimestampEpoch().BundleAgeBlock(0)
 	} else {
@@ -182,6 +277,9 @@ func (x *ikScen) tidOf(b *bpv7.Bundle) (int, bool) {
 	d := string(pb.Value.(*bpv7.PayloadBlock).Data())
 	if !strings.HasPrefix(d, "T") {
 		return 0, false
+	}
+	if i := strings.IndexByte(d, ' '); i >= 0 {
+		d = d[:i] // padding of the payload-length variants
 	}
 	tid, err := strconv.Atoi(d[1:])
 	return tid, err == nil
@@ -301,10 +399,10 @@ func (x *ikScen) openAgent() {
 func (x *ikScen) start(tid int, sp ikSpec, ts uint64) (run func(), after func()) {
 	switch sp.path {
 	case "sb":
-		b := ikBundle(sp.src, ts, tid)
+		b := ikBundle(sp.src, ts, tid, sp.vr)
 		return func() { x.n.Core.SendBundle(&b) }, nil
 	case "ag":
-		b := ikBundle(sp.src, ts, tid)
+		b := ikBundle(sp.src, ts, tid, sp.vr)
 		return func() { x.ag.send <- agent.BundleMessage{Bundle: b} }, x.ag.sync
 	case "rd": // the deletion report of the reception started by the member before
 		return nil, nil
@@ -373,9 +471,10 @@ func (x *ikScen) do(op ikOp) {
 		}
 		for _, sp := range specs {
 			x.nextT++
-			ts := ikTime(x.t0, sp.tk)
+			ts := x.time(sp.tk)
 			if sp.path == "rp" || sp.path == "r2" || sp.path == "rd" {
 				sp.src = 0
+				sp.vr = 0
 			}
 			run, after := x.start(x.nextT, sp, ts)
 			ms = append(ms, m{x.nextT, sp, ts, run, after})
@@ -410,7 +509,7 @@ func (x *ikScen) do(op ikOp) {
 				ms[i].ts = x.reportTime(ms[i].tid, before)
 				p = "rp"
 			}
-			members = append(members, L(Sym(p), I(ms[i].tid), I(ms[i].sp.src), U(ms[i].ts)))
+			members = append(members, L(Sym(p), I(ms[i].tid), I(ms[i].sp.src), U(ms[i].ts), I(ms[i].sp.vr)))
 		}
 		f := []S{Sym(op.kind), LL(members), U(now)}
 		x.fields = append(x.fields, LL(append(f, tail()...)))
@@ -452,10 +551,15 @@ func ikRunScen(o *Out, name string, ops []ikOp) {
 	o.Case("scen", x.fields...)
 }
 
-func sub1(path string, src, tk int) ikOp { return ikOp{kind: "sub", subs: []ikSpec{{path, src, tk}}} }
-func grp(sp ...ikSpec) ikOp              { return ikOp{kind: "grp", subs: sp} }
-func up(p int) ikOp                      { return ikOp{kind: "up", peer: p} }
-func down(p int) ikOp                    { return ikOp{kind: "down", peer: p} }
+func sub1(path string, src, tk int) ikOp {
+	return ikOp{kind: "sub", subs: []ikSpec{{path, src, tk, 0}}}
+}
+func subv(path string, src, tk, vr int) ikOp {
+	return ikOp{kind: "sub", subs: []ikSpec{{path, src, tk, vr}}}
+}
+func grp(sp ...ikSpec) ikOp { return ikOp{kind: "grp", subs: sp} }
+func up(p int) ikOp         { return ikOp{kind: "up", peer: p} }
+func down(p int) ikOp       { return ikOp{kind: "down", peer: p} }
 
 var (
 	opTick    = ikOp{kind: "tick"}
@@ -476,6 +580,101 @@ func fastWorkDir(prefix string) func() {
 	return func() {}
 }
 
+// ikBoundary probes the cleaning threshold at the millisecond.  Two bundles with a creation time
+// `margin` ms younger than the threshold are submitted (numbers 0 and 1: the entry is not forgotten);
+// then IdKeeper.clean is called in a loop with the clock read before and after each call.  A call
+// whose two readings agree ran at a known clock c: the entry must have survived it iff
+// ts >= c - 86400.  The last such call that kept the entry and the first that dropped it are
+// written as ordinary "clean" operations (the driver replays them with the model's threshold);
+// a third submission afterwards finds the entry forgotten.  An attempt whose submissions came too
+// late (machine busy: the entry may already be gone, the outcome would depend on timing) is
+// thrown away and repeated with a larger margin.
+func ikBoundary(o *Out, r *Rng) {
+	src := 1 + r.Intn(2)
+	vrs := []int{ikVariant(r), ikVariant(r), ikVariant(r)}
+	for _, margin := range []uint64{40, 150, 600, 2500} {
+		if ikBoundaryTry(o, src, vrs, margin) {
+			return
+		}
+	}
+	o.Case("scen", Sym("bnd-skipped"))
+}
+
+func ikBoundaryTry(o *Out, src int, vrs []int, margin uint64) bool {
+	const window = 60 * 60 * 24
+	n := NewNode("dtn://n0/", routing.RoutingConf{Algorithm: "epidemic"})
+	x := &ikScen{n: n, t0: uint64(bpv7.DtnTimeNow()), ref: map[string]int{}}
+	x.openAgent()
+	defer func() { x.closeAgents(); n.Destroy() }()
+	ts := uint64(bpv7.DtnTimeNow()) - window + margin
+	tail := func() []S { return []S{x.sends(), x.keeper(), x.store()} }
+	has := func() bool {
+		for _, k := range x.keeperRecs() {
+			if k.src == src && k.t == ts {
+				return true
+			}
+		}
+		return false
+	}
+	submit := func(vr int) uint64 {
+		x.nextT++
+		b := ikBundle(src, ts, x.nextT, vr)
+		n.Event++
+		n.Core.SendBundle(&b)
+		now := uint64(bpv7.DtnTimeNow())
+		x.fields = append(x.fields, LL(append([]S{Sym("sub"), LL([]S{L(Sym("sb"), I(x.nextT), I(src), U(ts), I(vr))}), U(now)}, tail()...)))
+		return now
+	}
+	x.fields = append(x.fields, Sym("bnd"))
+	for i := 0; i < 2; i++ {
+		if now := submit(vrs[i]); ts+window < now+5 {
+			return false // too late (or too close to tell): the entry may be gone already
+		}
+	}
+	// wait until shortly before the threshold reaches ts, then call clean back to back
+	for uint64(bpv7.DtnTimeNow())+8 < ts+window {
+		time.Sleep(time.Millisecond)
+	}
+	var lastKept, firstGone []S
+	sharpKept, sharpGone := false, false
+	deadline := time.Now().Add(20 * time.Second)
+	for time.Now().Before(deadline) {
+		c1 := uint64(bpv7.DtnTimeNow())
+		n.Core.VerifIdKeeperClean()
+		c2 := uint64(bpv7.DtnTimeNow())
+		if c1 != c2 {
+			continue // the clock moved during the call: not a reading
+		}
+		if has() {
+			lastKept = append([]S{Sym("clean"), U(c1)}, tail()...)
+			sharpKept = c1 == ts+window
+		} else {
+			firstGone = append([]S{Sym("clean"), U(c1)}, tail()...)
+			sharpGone = c1 == ts+window+1
+			break
+		}
+	}
+	if firstGone == nil {
+		if uint64(bpv7.DtnTimeNow()) < ts+window+1000 {
+			return false // no reading at all (extremely busy machine)
+		}
+		// the entry outlives the threshold by more than a second: report what was seen
+		firstGone = append([]S{Sym("clean"), U(uint64(bpv7.DtnTimeNow()))}, tail()...)
+	}
+	if lastKept != nil {
+		x.fields = append(x.fields, LL(lastKept))
+	}
+	x.fields = append(x.fields, LL(firstGone))
+	submit(vrs[2]) // forgotten: number 0 again (outside the hypothesis of C14_distinct)
+	n.PeerUp("p1", "dtn://p1/")
+	x.fields = append(x.fields, LL(append([]S{Sym("up"), I(1)}, tail()...)))
+	if sharpKept && sharpGone {
+		x.fields[0] = Sym("bnd-sharp")
+	}
+	o.Case("scen", x.fields...)
+	return true
+}
+
 func genC14idkeeper(o *Out, r *Rng, thorough bool) {
 	defer fastWorkDir("verif-c14-")()
 	paths := []string{"sb", "ag", "rp", "r2"}
@@ -493,11 +692,11 @@ func genC14idkeeper(o *Out, r *Rng, thorough bool) {
 	// a reception with an unknown block that asks for deletion: reception report and deletion report right after each other
 	ikRunScen(o, "reports2", []ikOp{sub1("r2", 0, ikNow), sub1("r2", 0, ikNow), up(1), opTick})
 	ikRunScen(o, "reports2-peer", []ikOp{up(1), sub1("r2", 0, ikNow), sub1("r2", 0, ikNow), up(2)})
-	ikRunScen(o, "reports2-grp", []ikOp{grp(ikSpec{"r2", 0, ikNow}, ikSpec{"r2", 0, ikNow}, ikSpec{"rp", 0, ikNow}), up(1)})
+	ikRunScen(o, "reports2-grp", []ikOp{grp(ikSpec{"r2", 0, ikNow, 0}, ikSpec{"r2", 0, ikNow, 0}, ikSpec{"rp", 0, ikNow, 0}), up(1)})
 	ikRunScen(o, "reports-peer", []ikOp{up(1), sub1("rp", 0, ikNow), sub1("rp", 0, ikNow), sub1("rp", 0, ikNow), up(2)})
 	// the same on a node that signs its administrative records
 	ikRunScen(o, "signed-reports", []ikOp{sub1("rp", 0, ikNow), sub1("rp", 0, ikNow), sub1("rp", 0, ikNow), up(1), opTick})
-	ikRunScen(o, "signed-reports2-grp", []ikOp{grp(ikSpec{"r2", 0, ikNow}, ikSpec{"r2", 0, ikNow}, ikSpec{"rp", 0, ikNow}), up(1)})
+	ikRunScen(o, "signed-reports2-grp", []ikOp{grp(ikSpec{"r2", 0, ikNow, 0}, ikSpec{"r2", 0, ikNow, 0}, ikSpec{"rp", 0, ikNow, 0}), up(1)})
 	ikRunScen(o, "signed-reports-peer", []ikOp{up(1), sub1("rp", 0, ikNow), sub1("rp", 0, ikNow), sub1("rp", 0, ikNow), up(2)})
 	// cleaning threshold: 60 s old is kept, 120 s and 30 min old entries are dropped (and their
 	// counters start again at 0)
@@ -510,12 +709,43 @@ func genC14idkeeper(o *Out, r *Rng, thorough bool) {
 	for k := 2; k <= 4; k++ {
 		var sp []ikSpec
 		for i := 0; i < k; i++ {
-			sp = append(sp, ikSpec{"sb", 1, ikT0})
+			sp = append(sp, ikSpec{"sb", 1, ikT0, 0})
 		}
 		ikRunScen(o, "grp-sb", []ikOp{grp(sp...), up(1), opTick})
 		ikRunScen(o, "grp-sb-peer", []ikOp{up(1), grp(sp...), up(2)})
 		sp[0].path = "ag"
 		ikRunScen(o, "grp-mixed", []ikOp{grp(sp...), up(1)})
+	}
+	// bundles of one source and creation time that differ in everything else (report-to endpoint,
+	// destination, lifetime, flags, blocks, payload length, CRC type): one counter, distinct numbers
+	for _, p := range []string{"sb", "ag"} {
+		for _, tk := range []int{ikT0, ikEpoch} {
+			ikRunScen(o, "vary-rt-"+p, []ikOp{subv(p, 1, tk, 0), subv(p, 1, tk, 1), subv(p, 1, tk, 2), subv(p, 1, tk, 1), subv(p, 1, tk, 4), up(1), opTick})
+			ikRunScen(o, "vary-rt-peer-"+p, []ikOp{up(1), subv(p, 1, tk, 3), subv(p, 1, tk, 0), subv(p, 1, tk, 2), up(2), opTick})
+			ikRunScen(o, "vary-other-"+p, []ikOp{subv(p, 1, tk, 5), subv(p, 1, tk, 15), subv(p, 1, tk, 45), subv(p, 1, tk, 90), subv(p, 1, tk, 180),
+				subv(p, 1, tk, 360), subv(p, 1, tk, 1080), up(1), opTick})
+			ikRunScen(o, "vary-all-"+p, []ikOp{up(1), subv(p, 1, tk, ikVariant(r)), subv(p, 1, tk, ikVariant(r)), subv(p, 1, tk, ikVariant(r)), subv(p, 1, tk, ikVariant(r)), up(2), opTick})
+		}
+	}
+	ikRunScen(o, "vary-grp", []ikOp{grp(ikSpec{"sb", 1, ikT0, 0}, ikSpec{"sb", 1, ikT0, 1}, ikSpec{"ag", 1, ikT0, 2}, ikSpec{"sb", 1, ikT0, 1}), up(1), opTick})
+	ikRunScen(o, "vary-grp-epoch", []ikOp{up(1), grp(ikSpec{"sb", 2, ikEpoch, 2}, ikSpec{"sb", 2, ikEpoch, 0}, ikSpec{"sb", 2, ikEpoch, 4}), up(2)})
+	// creation times ahead of the node's clock (a client whose clock is ahead by 1 ms ... 1 year)
+	for _, tk := range ikAheadKinds {
+		for _, p := range []string{"sb", "ag"} {
+			ikRunScen(o, "ahead-"+p, []ikOp{sub1(p, 1, tk), sub1(p, 1, tk), subv(p, 1, tk, 1), up(1), opTick})
+			ikRunScen(o, "ahead-peer-"+p, []ikOp{up(1), sub1(p, 1, tk), opClean, sub1(p, 1, tk), sub1(p, 2, tk), subv(p, 1, tk, 2), up(2), opTick})
+		}
+		ikRunScen(o, "ahead-grp", []ikOp{grp(ikSpec{"sb", 1, tk, 0}, ikSpec{"sb", 1, tk, 0}, ikSpec{"ag", 1, tk, 1}), opClean, sub1("sb", 1, tk), up(1), opTick})
+	}
+	// far in the past: forgotten at once, every submission gets number 0 (outside the hypothesis, tagged)
+	ikRunScen(o, "past", []ikOp{sub1("sb", 1, ikPastD), sub1("sb", 1, ikPastD), sub1("sb", 1, ikPastY), sub1("sb", 1, ikPastY), up(1)})
+	// the cleaning threshold at the millisecond
+	nb := 3
+	if thorough {
+		nb = 25
+	}
+	for i := 0; i < nb; i++ {
+		ikBoundary(o, r)
 	}
 	// --- random scenarios ---
 	nrand := 100
@@ -528,14 +758,17 @@ func genC14idkeeper(o *Out, r *Rng, thorough bool) {
 		restarted := false
 		ln := 3 + r.Intn(8)
 		mainSrc := r.Intn(len(ikSrcs))
-		mainTk := []int{ikT0, ikT0, ikEpoch, ikKept}[r.Intn(4)]
+		mainTk := []int{ikT0, ikT0, ikEpoch, ikKept, ikAhead1, ikAhead2s, ikAheadH, ikAheadD, ikAheadY}[r.Intn(9)]
 		spec := func() ikSpec {
 			sp := ikSpec{path: paths[r.Intn(4)], src: mainSrc, tk: mainTk}
 			if r.Intn(4) == 0 {
 				sp.src = r.Intn(len(ikSrcs))
 			}
 			if r.Intn(4) == 0 {
-				sp.tk = []int{ikT0, ikEpoch, ikT1, ikKept, ikOld, ikHalfH, ikNow}[r.Intn(7)]
+				sp.tk = []int{ikT0, ikEpoch, ikT1, ikKept, ikOld, ikHalfH, ikNow, ikAhead1, ikAhead2s, ikAheadH, ikAheadD, ikAheadY, ikPastD, ikPastY}[r.Intn(14)]
+			}
+			if sp.path == "sb" || sp.path == "ag" {
+				sp.vr = ikVariant(r)
 			}
 			if sp.path == "ag" && (sp.src == 0 || sp.src == 3) && r.Bool() {
 				sp.src = 1
@@ -557,7 +790,7 @@ func genC14idkeeper(o *Out, r *Rng, thorough bool) {
 				var sp []ikSpec
 				for j := 0; j < k; j++ {
 					m := spec()
-					if m.tk == ikOld || m.tk == ikHalfH {
+					if m.tk == ikOld || m.tk == ikHalfH || m.tk == ikPastD || m.tk == ikPastY {
 						// a stale creation time inside a concurrent group would make the outcome
 						// depend on whether a cleaning falls between the two counter steps
 						m.tk = ikKept
